@@ -1114,10 +1114,14 @@ class Emitter:
         while hasattr(owner, "tmp_owner"):
             owner = owner.tmp_owner
         owner.nloops += 1
+        my_n = owner.nloops          # this loop's own number (nested loops increase `owner.nloops` further)
         lname_ = f"{self.cur_lean_name}.loop{owner.nloops}"
         assigned = set()
         used = set()
         collect(e, assigned, used)
+        if getattr(self.u, "loop_assigned", None):
+            # units whose loops assign locals through calls (`r.next_x()` with `&mut self` on a local)
+            assigned |= self.u.loop_assigned(e, env)
         inner = set()
         bound_names(e, inner)
         muts = [v for v in env.vars if v in assigned]
@@ -1177,7 +1181,9 @@ class Emitter:
                f"  | 0, _ => pure Ctl.fuel",
                f"  | fuel + 1, {mut_pat} => do"] + flatten(lines, 2)
         env.aux.append("\n".join(aux))
-        fuel = self.u.fuel.get((env.fn.name, owner.nloops)) or self.u.fuel.get(env.fn.name)
+        fuel = self.u.fuel.get((env.fn.name, my_n)) or self.u.fuel.get(env.fn.name)
+        fuel_panic = (getattr(self.u, 'fuel_panic', {}).get((env.fn.name, my_n))
+                      or getattr(self.u, 'fuel_panic', {}).get(env.fn.name, self.u.panic))
         if not fuel:
             raise TErr(f"{self.u.name}: no fuel expression configured for loop {owner.nloops} of `{env.fn.name}`")
         r = env.fresh("r")
@@ -1193,7 +1199,7 @@ class Emitter:
         out = [f"let {r} ← {lname_}{gen_arg}{cap_args} {paren(fuel)} {mut_pat}",
                f"match {r} with",
                f"| Ctl.ret v => return v" if not env.loop else f"| Ctl.ret v => return (Ctl.ret v)",
-               f"| Ctl.fuel => {getattr(self.u, 'fuel_panic', {}).get(env.fn.name, self.u.panic)}",
+               f"| Ctl.fuel => {fuel_panic}",
                f"| Ctl.brk {mut_pat if muts else '_'} =>"]
         if muts:
             out.append([f"{env.vars[m][0]} := {env.vars[m][0]}" for m in muts] if False else ["pure ()"])
@@ -1206,7 +1212,7 @@ class Emitter:
             out = [f"let {r} ← {lname_}{gen_arg}{cap_args} {paren(fuel)} {mut_pat}",
                    f"let {tuple_of(fresh)} ← match {r} with",
                    [f"| Ctl.ret v => return v" if not env.loop else f"| Ctl.ret v => return (Ctl.ret v)",
-                    f"| Ctl.fuel => {getattr(self.u, 'fuel_panic', {}).get(env.fn.name, self.u.panic)}",
+                    f"| Ctl.fuel => {fuel_panic}",
                     f"| Ctl.brk m => pure m"]]
             out += [f"{env.vars[m][0]} := {f}" for m, f in zip(muts, fresh)]
         return out
